@@ -82,6 +82,8 @@ type bindKind int
 const (
 	bLocal bindKind = iota
 	bGlobal
+	// bBoundary marks the start of a lexical scope (block, function body, if/for header); it binds no name
+	bBoundary
 )
 
 type cell struct {
@@ -106,6 +108,18 @@ func (e *env) lookup(name string) *env {
 		}
 	}
 	return nil
+}
+
+// globalInScope reports whether name is declared by a global statement in the innermost scope of e.
+// (A := over several names re-uses names already declared in the same scope; for a global that is a
+// store to the global.)
+func (e *env) globalInScope(name string) bool {
+	for x := e; x != nil && x.kind != bBoundary; x = x.parent {
+		if x.name == name {
+			return x.kind == bGlobal
+		}
+	}
+	return false
 }
 
 func (e *env) bind(name string, v ugo.Object) *env {
@@ -216,6 +230,9 @@ func (in *Interp) feat(s string) { in.Features[s]++ }
 
 // execStmts runs a statement list, threading the environment; returns the env reached.
 func (in *Interp) execStmts(stmts []parser.Stmt, e *env, top *topCtx) (completion, *env, error) {
+	if top == nil {
+		e = &env{kind: bBoundary, parent: e}
+	}
 	for _, s := range stmts {
 		c, ne, err := in.exec(s, e, top)
 		e = ne
@@ -283,6 +300,7 @@ func (in *Interp) exec(s parser.Stmt, e *env, top *topCtx) (completion, *env, er
 		in.feat("if")
 		ie := e
 		if n.Init != nil {
+			ie = &env{kind: bBoundary, parent: e}
 			_, ne, err := in.exec(n.Init, ie, nil)
 			if err != nil {
 				return completion{}, e, err
@@ -306,6 +324,7 @@ func (in *Interp) exec(s parser.Stmt, e *env, top *topCtx) (completion, *env, er
 		in.feat("for")
 		fe := e
 		if n.Init != nil {
+			fe = &env{kind: bBoundary, parent: e}
 			_, ne, err := in.exec(n.Init, fe, nil)
 			if err != nil {
 				return completion{}, e, err
@@ -672,6 +691,10 @@ func (in *Interp) assignTo(lhs parser.Expr, v ugo.Object, define bool, e *env) (
 		return e, &Unsupported{"assignment target without identifier root"}
 	}
 	if len(sels) == 0 {
+		if define && e.globalInScope(root.Name) {
+			in.feat("define-over-global")
+			define = false
+		}
 		if define {
 			return e.bind(root.Name, v), nil
 		}
